@@ -25,7 +25,7 @@ from .ops import Unsupported, truth, b2v, i2v, zint, zbool, zseq, to_val, to_vl,
 # run-time structures
 # ---------------------------------------------------------------------------------------------
 import re
-INTERNAL_TRACE = re.compile(r"\b(n_callees|callee_arg|callee_result|n_events|all_calls_from_callee|all_getattr_on)\b")
+INTERNAL_TRACE = re.compile(r"\b(n_callees|callee_arg|callee_result|n_events|n_ev|all_calls_from_callee|all_getattr_on)\b")
 
 
 class CheckerError(Exception):
@@ -533,6 +533,10 @@ class Executor(object):
                 chosen = None
                 for var in spec["variants"]:
                     ok = True
+                    if var.get("if_trace"):
+                        tv, _ = self.spec.evaluate(self, var["if_trace"], st, pre, scope)
+                        if tv is not True:
+                            ok = False
                     for loc, expr in var.get("sets", {}).items():
                         tgt, fname = loc.rsplit(".", 1)
                         o, _ = self.spec.evaluate(self, tgt, pre, pre, scope)
@@ -540,7 +544,7 @@ class Executor(object):
                         have = self.heap_get(st, o, fname)
                         same = ops.identical(have, want) if (isinstance(have, HeapRef) or isinstance(want, HeapRef) or
                                                              not (is_sym(have) or is_sym(want))) else None
-                        if same is not True:
+                        if not (same is True or (same is not None and not isinstance(same, bool) and z3.is_true(z3.simplify(same)))):
                             ok = False
                     if ok:
                         chosen = var
